@@ -280,6 +280,10 @@ func hostVariants(aliases []string) []hostVariant {
 		hostVariant{"deny-idna", "\u24d4vil.test"}, hostVariant{"plain-idna", "\u24d4xample.test"},
 		hostVariant{"v6-unspec-zone", "[::%25lo]"}, hostVariant{"v6-loop-zone", "[::1%25lo]"},
 		hostVariant{"v6-mapped-loop-zone", "[::ffff:127.0.0.1%25lo]"})
+	// fully qualified spellings (trailing dot): the same name for the resolver and for TLS
+	hs = append(hs, hostVariant{"lh-dot", "localhost."}, hostVariant{"lh-dot-mixed", "LocalHost."}, hostVariant{"deny-dot", "evil.test."},
+		hostVariant{"deny-dot-sub", "sub.evil.test."}, hostVariant{"plain-dot", "example.test."}, hostVariant{"alias-dot", "devbox-01."},
+		hostVariant{"deny-excluded-dot", "ok.evil.test."})
 	hs = append(hs, hostVariant{"alias-as-written", "DevBox-01"}, hostVariant{"alias-as-written2", "MixedCase.Example"},
 		hostVariant{"alias-as-written3", "Ip6-Loopback-VF"}, hostVariant{"alias-nonlocal", "NotLocal-Alias"},
 		hostVariant{"alias-nonlocal-lower", "notlocal-alias"})
@@ -1019,8 +1023,10 @@ func main() {
 				if curMatcher.Match(hn) {
 					denied[j.spec.ID][hn] = true
 				}
-				if a := asciiForm(hn); curMatcher.Match(a) {
-					denied[j.spec.ID][a] = true
+				for _, f := range []string{asciiForm(hn), strings.TrimSuffix(hn, "."), strings.TrimSuffix(asciiForm(hn), ".")} {
+					if curMatcher.Match(f) {
+						denied[j.spec.ID][f] = true
+					}
 				}
 				// what the proxy handed to the matcher (when the request got that far) must be the same string
 				if v, ok := seen[hn]; ok {
@@ -1033,8 +1039,10 @@ func main() {
 			targets := targetsOf(o, rig.UpstreamAddr())
 			if curMatcher != nil {
 				for _, t := range targets {
-					if curMatcher.Match(t) {
-						denied[j.spec.ID][t] = true
+					for _, f := range []string{t, strings.TrimSuffix(t, ".")} {
+						if curMatcher.Match(f) {
+							denied[j.spec.ID][f] = true
+						}
 					}
 				}
 			}
